@@ -19,7 +19,10 @@ from . import hir as H
 
 IDENT = {"clone", "to_owned", "cloned", "copied", "as_ref", "as_mut", "as_deref", "as_deref_mut", "as_slice", "into", "borrow",
          "borrow_mut", "as_inner", "into_inner", "from", "deref", "deref_mut", "with_context", "context", "iter", "into_iter",
-         "iter_mut", "by_ref", "from_inner_unchecked", "to_vec", "as_str", "as_java_str", "to_string", "as_class_name"}
+         "iter_mut", "by_ref", "from_inner_unchecked", "to_vec", "as_str", "as_java_str", "to_string", "as_class_name",
+         # `opt.ok_or(e)` / `opt.ok_or_else(|| e)`: like `opt.context(..)` the payload with None turned into an error (the error side is
+         # transparent in terms, as with `?`); who may turn a None into an error is a question for the rules that account for refusals
+         "ok_or", "ok_or_else"}
 TRANSPARENT_CTORS = {"Some", "Ok"}
 ELEMWISE = {"map", "filter", "find", "for_each", "any", "all", "is_some_and", "is_none_or", "and_then", "filter_map",
             "flat_map", "inspect", "take_while", "skip_while", "position", "find_map", "retain", "map_or", "map_or_else"}
@@ -164,6 +167,10 @@ def mk_case(scrut, arms, skips_transparent=False):
     d = {}
     for k, t, _ in arms:
         d.setdefault(k, t)
+    if any(k.startswith("Ok(") for k in d) and all((k.startswith("Ok(") and k.endswith(")")) or (k in ("Err", "_") and d[k] == ERR) for k in d):
+        # a `Result<Option<T>>` (or any `Result<enum>`) taken apart in one match: `Ok(Some(x)) => .., Ok(None) => .., Err(e) => Err(e)`
+        # = `match scrut? { Some(x) => .., None => .. }` (the error arm is the propagation `?` performs; `Ok` is transparent)
+        return mk_case(scrut, [(k[3:-1], t, b) for k, t, b in arms if k.startswith("Ok(")], skips_transparent)
     keys = set(d)
     binds = {k: b for k, _, b in arms}
     if keys == {"Some", "None"}:
@@ -584,6 +591,25 @@ class Norm:
                 if ft[0] == "ctor" and ft[2] == () and ("Fn" in ((a0.get("res") or {}).get("dk") or "") or (a0.get("res") or {}).get("r") == "selfctor"):
                     # a tuple constructor used as a function value: `.map(Namespace)` = `.map(|x| Namespace(x))`
                     return mk_each(recv, ("ctor", ft[1], (recv if opt else mk_elem(recv),)), opt)
+            if name in ("map_or", "map_or_else") and len(args) == 2 and (n["recv"].get("ty") or "").lstrip("&").startswith("core::option::Option<"):
+                # `opt.map_or(d, f)` / `opt.map_or_else(|| d, f)` = `match opt { Some(x) => f(x), None => d }` (= `opt.map(f).unwrap_or(d)`)
+                dflt = T(args[0])
+                if name == "map_or_else":
+                    dflt = dflt[1] if dflt[0] == "lam" else (mk_call(dflt[1], []) if dflt[0] == "fn" else ("call", "<indirect>", (dflt,)))
+                a1 = H.peel(args[1])
+                if a1.get("k") == "closure":
+                    some = T(a1["body"])
+                else:
+                    ft = T(a1)
+                    if ft[0] == "ctor" and ft[1] in TRANSPARENT_CTORS:
+                        some = recv
+                    elif ft[0] == "fn":
+                        some = mk_call(ft[1], [recv])
+                    elif ft[0] == "ctor" and ft[2] == ():
+                        some = ("ctor", ft[1], (recv,))
+                    else:
+                        some = ("call", "<indirect>", (ft, recv))
+                return mk_case(recv, [("Some", some, True), ("_", dflt, False)], self.skips_transparent)
             if name in OPTION_TO_RESULT and recv[0] == "omap" and (n["recv"].get("ty") or "").startswith("core::option::Option<"):
                 # `opt.map(f).context(..)` = `match opt { Some(x) => Ok(f(x)), None => bail!(..) }`: None becomes the error exit,
                 # which is transparent (like `?`), so the value is the mapped payload
@@ -645,7 +671,7 @@ class Norm:
             s0 = H.peel(s, refs=False)
             if s0.get("k") == "let" and ("els" in s0 or self._hoistable(s0)):
                 return True
-            if s0.get("k") in ("if", "match", "for", "block", "ret") and (self._has_ret(s0) or self._is_guard(s0)):
+            if s0.get("k") in ("if", "match", "for", "loop", "block", "ret") and (self._has_ret(s0) or self._is_guard(s0)):
                 return True
         return False
 
@@ -766,6 +792,10 @@ class Norm:
             return self.fold(s0["stmts"], s0.get("tail"), nxt, depth + 1)
         if k == "for" and self._has_ret(s0):
             return self._search_loop(s0, nxt, depth)
+        if k == "loop" and self._has_ret(s0):
+            w = self._while_index_loop(s0)
+            if w is not None:
+                return self._search_loop(w, nxt, depth)
         if self._has_ret(s0):
             return ("opaque", "return-inside-%s" % k)
         return nxt()
@@ -778,9 +808,22 @@ class Norm:
         if len(items) != 1 or items[0].get("k") != "if" or "else" in items[0] or not H.diverges(items[0]["then"]):
             return ("opaque", "loop-with-return")
         iff = items[0]
-        X = self.term(f["iter"])
+        X = f["iter_term"] if "iter_term" in f else self.term(f["iter"])
         R = self.value(iff["then"], depth + 1)
         c = H.peel(iff["cond"], refs=False)
+        Yr = self._indexed_by_range(f, X)
+        if Yr is None and "iter_term" in f:
+            return ("opaque", "loop-with-return")
+        if Yr is not None and c.get("k") != "letexpr":
+            # `for i in 0..N { if P(Y[i]) { return R(i) } }` with Y an array of N elements (or `0..Y.len()`) is the loop over
+            # `Y.iter().enumerate()`: i is the position, Y[i] the element
+            i_t = f["index_term"] if "index_term" in f else mk_elem(X)
+            cond = subst(subst(self.term(iff["cond"]), ("idx", Yr, i_t), mk_elem(Yr)), i_t, ("index", Yr))
+            R2 = subst(subst(R, ("idx", Yr, i_t), mk_elem(Yr)), i_t, ("index", Yr))
+            first = ("call", "position", (Yr, ("lam", cond)))
+            if contains(subst(R2, ("index", Yr), ("lit", "<position>")), mk_elem(Yr)):
+                return ("opaque", "search-loop-uses-element")
+            return mk_case(first, [("Some", subst(R2, ("index", Yr), first), True), ("_", nxt(), False)], self.skips_transparent)
         if c.get("k") == "letexpr":
             g = self.term(c["init"])
             first = ("call", "find_map", (X, ("lam", g)))
@@ -797,6 +840,83 @@ class Norm:
                 first = ("call", "find", (X, ("lam", cond)))
                 Rv = subst(R, mk_elem(X), first)
         return mk_case(first, [("Some", Rv, True), ("_", nxt(), False)], self.skips_transparent)
+
+    def _while_index_loop(self, lp):
+        """`let mut i = 0; while i < E { body; i += 1; }` (no `continue`, i assigned nowhere else in the loop) is `for i in 0..E { body }`:
+        a for-like record with the iterator given as a term, else None."""
+        body = H.peel(lp["body"], refs=False, blocks=False)
+        items = list(body.get("stmts", [])) + ([body["tail"]] if "tail" in body else [])
+        if len(items) != 1:
+            return None
+        iff = H.peel(items[0], refs=False)
+        if iff.get("k") != "if" or "else" not in iff or not is_plain(iff["else"], "break"):
+            return None
+        c = H.peel(iff["cond"], refs=False)
+        if c.get("k") != "bin" or c.get("op") != "<":
+            return None
+        iv = H.local_of(c["l"])
+        if not iv or iv[0] not in self.mut or self.init_term(iv[0]) != ("lit", 0):
+            return None
+        then = H.peel(iff["then"], refs=False, blocks=False)
+        if then.get("k") != "block" or "tail" in then or not then["stmts"]:
+            return None
+        last = H.peel(then["stmts"][-1], refs=False)
+        l = H.local_of(last["l"]) if last.get("k") in ("assign", "assignop") else None
+        if not l or l[0] != iv[0]:
+            return None
+        if last["k"] == "assignop":
+            step_ok = last.get("op") in ("+=", "+") and self.term(last["r"]) == ("lit", 1)
+        else:
+            step_ok = self.term(last["r"]) in (("bin", "+", ("local", iv[0], iv[1]), ("lit", 1)), ("bin", "+", ("lit", 1), ("local", iv[0], iv[1])))
+        if not step_ok:
+            return None
+        rest = {"k": "block", "stmts": then["stmts"][:-1], "sp": then.get("sp")}
+        for x in H.walk(rest, into_closures=False):
+            if x.get("k") == "continue":
+                return None
+            if x.get("k") in ("assign", "assignop"):
+                r, _ = H.place_root(x["l"])
+                if r and r[0] == iv[0]:
+                    return None
+            if x.get("k") == "ref" and x.get("mut") and H.local_of(x["e"]) and H.local_of(x["e"])[0] == iv[0]:
+                return None
+        X = mk_struct("Range", [("start", ("lit", 0)), ("end", self.term(c["r"]))])
+        return {"k": "for", "pat": {"k": "bind", "id": iv[0], "name": iv[1]}, "iter_term": X, "index_term": ("local", iv[0], iv[1]), "body": rest}
+
+    def _indexed_by_range(self, f, X):
+        """`for i in 0..E { .. Y[i] .. }` where i is used to index exactly one collection Y whose length is E (an array `[T; E]`, or
+        E = `Y.len()`): the term of Y, else None."""
+        if not (X[0] == "struct" and X[1] == "Range"):
+            return None
+        xf = dict(X[2])
+        if xf.get("start") != ("lit", 0) or "end" not in xf:
+            return None
+        p = f["pat"]
+        while p.get("k") in ("pref", "pderef"):
+            p = p["pat"]
+        if p.get("k") != "bind" or "sub" in p:
+            return None
+        ivar = p["id"]
+        bases = {}
+        for n in H.walk(f["body"]):
+            if n.get("k") == "index":
+                l = H.local_of(n["i"])
+                if l and l[0] == ivar:
+                    bases[self.term(n["e"])] = n["e"]
+        if len(bases) != 1:
+            return None
+        (Y, e), = bases.items()
+        ty = (e.get("ty") or "").strip()
+        while ty.startswith("&"):
+            ty = ty[1:].lstrip()
+            if ty.startswith("mut "):
+                ty = ty[4:]
+        end = xf["end"]
+        if end == ("call", "len", (Y,)):
+            return Y
+        if ty.startswith("[") and ty.endswith("]") and "; " in ty and end[0] == "lit" and ty[:-1].rsplit("; ", 1)[1].strip() == str(end[1]):
+            return Y
+        return None
 
     def _pat_key(self, p):
         """(key, binds?) of a pattern for `case`: variant name, literal, tuple of keys, or `_`."""
@@ -1120,6 +1240,64 @@ def _leaves_of(exp, act, path):
         yield (path, exp, act, True)
 
 
+# ------------------------------------------------------------------------------------------- qualified calls
+def _ty_head(t):
+    """head of a type string: references stripped; arrays / tuples / slices as they are; `path::Type<..>` -> `path::Type`."""
+    t = (t or "").strip()
+    while t.startswith("&"):
+        t = t[1:].lstrip()
+        if t.startswith("'"):
+            t = t.split(" ", 1)[1] if " " in t else ""
+        if t.startswith("mut "):
+            t = t[4:]
+    if t.startswith(("[", "(")):
+        return t
+    return t.split("<", 1)[0]
+
+
+def _owner_head(c):
+    """type the associated function belongs to: Self type of a trait method, impl type / path owner of an inherent one."""
+    if c.get("trait"):
+        return _ty_head(c.get("self_ty"))
+    if c.get("impl_ty"):
+        return _ty_head(c["impl_ty"])
+    p = c.get("path") or ""
+    if "::" not in p:
+        return ""
+    owner = p.rsplit("::", 1)[0]
+    return _ty_head(owner.replace("::<", "<"))
+
+
+def unqualified(body):
+    """A copy of a body record in which the fully qualified spelling of a method call -- `Type::method(recv, a)`,
+    `Trait::method(recv, a)`, `<T as Trait>::method(recv, a)` -- is the method-call node `recv.method(a)` (marked `qualified`).
+    The loader does this for inherent methods of workspace types; here it is done for every associated function whose first argument
+    has the type the function belongs to (then it is the receiver: IndexMap::insert(&mut m, k, v), Iterator::next(&mut it),
+    Option::zip(a, b), Clone::clone(x)).  Rules that look at method calls structurally (mutations of a local, adaptor chains)
+    work on the copy; the facts themselves are left untouched."""
+    import copy
+    if not any(n.get("k") == "call" and (n.get("callee") or {}).get("dk") == "AssocFn" and n.get("args") for n in H.walk(body["body"])):
+        return body
+    b2 = copy.deepcopy(body)
+    for n in H.walk(b2["body"]):
+        if n.get("k") != "call" or not n.get("args"):
+            continue
+        c = n.get("callee") or {}
+        if c.get("dk") != "AssocFn":
+            continue
+        a0 = n["args"][0]
+        own = _owner_head(c)
+        if not own or own != _ty_head(a0.get("tya") or a0.get("ty")) and own != _ty_head(a0.get("ty")):
+            continue
+        n["k"] = "mcall"
+        n["name"] = (c.get("path") or "?").rsplit("::", 1)[-1]
+        n["recv"] = a0
+        n["args"] = n["args"][1:]
+        n["qualified"] = True
+        n.pop("f", None)
+    return b2
+
+
 # ------------------------------------------------------------------------------------------- event helpers
 def order_index(root):
     """node identity -> pre-order position (receiver before arguments, statements in order)."""
@@ -1234,6 +1412,71 @@ def path_conditions_ex(root, target):
     return out
 
 
+_OPT_NEG = {"None": "Some", "Err": "Ok"}
+
+
+def _is_cond(kind, key, t):
+    """canonical `pattern matched` condition: only the positive variants Some / Ok are named (is None = is-not Some)"""
+    if key in _OPT_NEG:
+        return ("isnot" if kind == "is" else "is", _OPT_NEG[key], t)
+    return (kind, key, t)
+
+
+def cond_terms_ex(nz, root, node):
+    """Path conditions of `node` in a form that does not depend on how the test is spelled:
+         ("is" | "isnot", <pattern key>, <scrutinee term>)   `if let P = e` (then / else), `while let`, `let P = e else { .. }`, the arm of a
+                                                            `match e`, `let x = match e { P => v, _ => <diverges> }`
+         ("if", <canonical boolean term>, polarity)           `if c` (then / else), after `if c { <diverges> }`, a match guard
+       -> [(cond, alts)]: `alts` = the expressions evaluated instead when the condition fails (else branch, diverging block, the other
+       arms); [] when nothing is evaluated instead."""
+    out = []
+    for rec in path_conditions_ex(root, node):
+        kind, c, extra, owner, exits = rec["kind"], rec["node"], rec["extra"], rec["owner"], rec["exit"]
+        if kind == "if":
+            if exits is not None:
+                alts = list(exits)
+            elif owner.get("k") == "if":
+                alts = [owner["else"]] if (extra and "else" in owner) else ([] if extra else [owner["then"]])
+            else:
+                alts = []
+            c0 = H.peel(c, refs=False)
+            if c0.get("k") == "letexpr":
+                out.append((_is_cond("is" if extra else "isnot", nz._pat_key(c0["pat"])[0], nz.term(c0["init"])), alts))
+            else:
+                t, pol = canon_cond(nz.term(c))
+                out.append((("if", t, extra if pol else not extra), alts))
+        elif kind == "letelse":
+            out.append((_is_cond("is", nz._pat_key(c["pat"])[0], nz.term(c["init"])), list(exits or [])))
+        elif kind == "arm":
+            arms = c["arms"]
+            a = arms[extra]
+            key = nz._pat_key(a["pat"])[0]
+            scrut = nz.term(c["scrut"])
+            alts = [x["body"] for i, x in enumerate(arms) if i != extra]
+            earlier = [nz._pat_key(x["pat"])[0] for x in arms[:extra] if "guard" not in x]
+            if key == "_" and len(earlier) == 1 and extra == 1 and earlier[0] in ("Some", "None", "Ok", "Err"):
+                out.append((_is_cond("isnot", earlier[0], scrut), alts))          # `Some(x) => .., _ => HERE`
+            else:
+                out.append((_is_cond("is", key, scrut), alts))
+            if "guard" in a:
+                t, pol = canon_cond(nz.term(a["guard"]))
+                out.append((("if", t, pol), alts))
+    return out
+
+
+def show_conds_ex(cs):
+    return ["%s %s" % (c[0], show(c[1])) if c[0] == "if" and c[2] else ("not %s" % show(c[1]) if c[0] == "if" else "%s %s %s" % (show(c[2]), c[0], c[1]))
+            for c in cs]
+
+
+def is_plain(n, kind):
+    """n is `break` / `continue` (no label, no value), possibly wrapped in a block / `;`"""
+    n = H.peel(n, refs=False)
+    while n.get("k") == "block" and len(n["stmts"]) == 1 and "tail" not in n:
+        n = H.peel(n["stmts"][0], refs=False)
+    return n.get("k") == kind and "e" not in n and "label" not in n
+
+
 def exclusive_branches(root, a, b):
     """a and b sit in different branches of the same `if` / different arms of the same `match` (never both evaluated in one pass)."""
     ca, cb = H.parents_of(root, a), H.parents_of(root, b)
@@ -1315,15 +1558,56 @@ def last_component(path):
 
 
 def is_tried(root, node):
-    """True if `node` is the operand of a `?` (possibly through refs/parens)."""
+    """The failure (Err / None) of `node` leaves the function as an error, however that is spelled:
+         * `node?` (through refs, parentheses, and `.context(..)` / `.with_context(..)` / `.map_err(..)`, which only decorate the error);
+         * `match node { Ok(v) => .., Err(e) => return Err(e) }`, `let Ok(v) = node else { bail!(..) }`, `if let Ok(v) = node { .. } else { bail!(..) }`:
+           every arm that is not an Ok / Some arm is an error exit (or, when the match is the function's value, an `Err(..)` value);
+         * `let r = node;` with r used exactly once, in one of these positions."""
+    return _is_tried(root, node, 0)
+
+
+def _is_tried(root, node, depth):
     ps = H.parents_of(root, node) or []
+    cur = node
     for p in reversed(ps):
-        if p.get("k") == "try":
+        k = p.get("k")
+        if k == "try":
             return True
-        if p.get("k") in ("ref",) or (p.get("k") == "block" and not p["stmts"]):
+        if k == "ref" or (k == "block" and not p["stmts"] and p.get("tail") is cur) or (k == "un" and p.get("op") == "deref"):
+            cur = p
             continue
+        if k == "mcall" and p["recv"] is cur and p["name"] in ("context", "with_context", "map_err"):
+            cur = p
+            continue
+        if k == "match" and p["scrut"] is cur:
+            fails = [a for a in p["arms"] if not _success_pat(a["pat"])]
+            in_tail = id(p) in H.tail_nodes(root)
+            return bool(fails) and all(H.is_err_exit(a["body"]) or (in_tail and "guard" not in a and _is_err_value(a["body"])) for a in fails)
+        if k == "letexpr" and p["init"] is cur:
+            owner = [x for x in H.walk(root) if x.get("k") == "if" and H.peel(x["cond"], refs=False) is p]
+            return (len(owner) == 1 and _success_pat(p["pat"]) and "else" in owner[0] and H.is_err_exit(owner[0]["else"]))
+        if k == "let" and p.get("init") is cur:
+            if "els" in p:
+                return _success_pat(p["pat"]) and H.is_err_exit(p["els"])
+            pat = p["pat"]
+            if pat.get("k") == "bind" and "sub" not in pat and depth < 3:
+                uses = [x for x in H.walk(root) if x.get("k") == "path" and x["res"].get("r") == "local" and x["res"].get("id") == pat["id"]]
+                return len(uses) == 1 and _is_tried(root, uses[0], depth + 1)
+            return False
         return False
     return False
+
+
+def _success_pat(p):
+    """the pattern selects the Ok / Some side (`Ok(x)`, `Some(x)`, `Ok(Some(x))`, `Ok(None)`)"""
+    v = H.pat_variant(p)
+    return bool(v) and v[1] in ("Ok", "Some")
+
+
+def _is_err_value(e):
+    e = H.peel(e, refs=False)
+    c = H.ctor_of(e) if e.get("k") == "call" else None
+    return bool(c) and c[1] == "Err"
 
 
 def to_formula(t, B):
